@@ -2,6 +2,13 @@
 #ifndef VERIF_CELER_TYPES_H
 #define VERIF_CELER_TYPES_H
 typedef unsigned long size_type;         /* celeritas::size_type == std::size_t on the host (non-device) build */
+#ifdef VERIF_REAL_AS_INT
+/* exact-integer abstraction of real_type (labelled in the unit): sums are exact and associative, no rounding */
+typedef long real_type;
+#define __CPROVER_isinfd(x) 0
+#define __CPROVER_isnand(x) 0
+#else
 typedef double real_type;                /* celeritas::real_type */
+#endif
 typedef unsigned long long ull_int;      /* celeritas::ull_int */
 #endif
